@@ -108,6 +108,18 @@ fn main() {
                     out.rec(&json!({"k": "a", "be": "stdfs", "a": chars(&t), "cwd": pchars(d), "o": {"abs": r, "abs_assoc": r2}}));
                 }
             }
+            // the process' working directory has been removed: arguments that do not need it (rooted, ~, $HOME, scheme-prefixed)
+            // resolve as ever - only a relative argument may fail
+            let dead = sandbox.join("dead");
+            if std::fs::create_dir_all(&dead).is_ok() && std::env::set_current_dir(&dead).is_ok() && std::fs::remove_dir(&dead).is_ok() {
+                for t in ["/", "/a/b", "/a//b/../c/", "~", "~/x", "$HOME/y", "${HOME}/../z", "file:///z", "/\u{e9}/."] {
+                    let p = PathBuf::from(t);
+                    prog.mark(0, &format!("abs with a removed cwd {}", t));
+                    let r = gres(|| res_path(std.abs(&p)));
+                    let r2 = gres(|| res_path(Stdfs::abs(&p)));
+                    out.rec(&json!({"k": "a", "be": "stdfs", "a": chars(t), "cwd": chars("/"), "o": {"abs": r, "abs_assoc": r2}}));
+                }
+            }
             std::env::set_current_dir("/").unwrap();
             let _ = std::fs::remove_dir_all(&sandbox);
             // phase 2: HOME changes inside the running process - "~" must follow it (no cached home directory);
